@@ -213,4 +213,27 @@ Section Append.
     rewrite (drops_after_copy _ _ hs q (f_content f) (Ok tt) (fresh_file [])); [|apply lookup_insert|reflexivity].
     cbn [run map_err f_created f_accessed fresh_file]. rewrite insert_insert. reflexivity.
   Qed.
+
+  (** ** the failing side: the stream copy opens its SOURCE first.  When the source is not a file (a
+      directory, or nothing) the copy fails before it has created anything: the destination filesystem is
+      untouched, no handle is opened - in particular no empty file is left at the destination *)
+  Lemma open_file1_fails (s0 s1 : mstate) hs p :
+    (forall f, s1 !! p = Some f -> f_type f = Dir) ->
+    exists e, run bhandler (vp_open_file v1 p) (S2 s0 s1 hs) = (S2 s0 s1 hs, Err e).
+  Proof.
+    intros Hf. cbn. unfold mem_fs_call. rewrite ms_open_file. cbn [msec_sem].
+    destruct (s1 !! p) as [f|] eqn:E; [rewrite (Hf f eq_refl)|]; cbn; eauto.
+  Qed.
+
+  Theorem copy_file_across_fails_early (s0 s1 : mstate) hs (p q : path) :
+    (forall f, s1 !! p = Some f -> f_type f = Dir) -> s0 !! q = None ->
+    exists e, run bhandler (vp_copy_file v1 p v0 q) (S2 s0 s1 hs) = (S2 s0 s1 hs, Err e).
+  Proof.
+    intros Hsrc Hup.
+    unfold vp_copy_file, relabel, labelled, bind_res. rewrite !run_bind, exists0, Hup.
+    rewrite bool_decide_eq_false_2 by (intros [? ?]; discriminate).
+    unfold fast_path. cbn [v_id v0 v1 Nat.eqb].
+    unfold stream_copy, bind_res. rewrite !run_bind.
+    destruct (open_file1_fails s0 s1 hs p Hsrc) as (e & ->). cbn [run map_err]. eauto.
+  Qed.
 End Append.
